@@ -405,3 +405,46 @@ def documented_defaults(ctx):
                     witness="documented default %s, default_options has %s" % (
                         val, (float(D[name]) if isinstance(D.get(name), Fraction) else D.get(name))),
                     replay={"handler": "doc_default", "input": {"option": name, "documented": val}})
+
+
+# ---------------------------------------------------------------------------------------------
+# the call layer reaches init_options unchanged (pipeflow forwards **kwargs)
+
+PF = "pandapipes.pipeflow"
+
+
+@unit("C14", "pipeflow_forwards_kwargs", functions=[PF + ":pipeflow"], engine="E1")
+def pipeflow_forwards(ctx):
+    ctx.assume("A6")
+    D, uni = universe()
+    seen = {}
+
+    def c_init_options(ev, args, kwargs):
+        seen["kw"] = kwargs.get("__symdict__", {k: v for k, v in kwargs.items()})
+        seen["net"] = args[0]
+        raise E._Raise(E.ExcVal("StopHere"))     # nothing after the call matters for this obligation
+    holder = {}
+
+    def mk():
+        C = SymDict(uni, "call")
+        holder["C"] = C
+        net = K.NetObj({"fluid": E.Obj("fluid", {"name": "f"}), "user_pf_options": SymDict(uni, "user")})
+        holder["net"] = net
+        return [net, None], {"__symdict__": C}
+    paths = run(ctx, PF + ":pipeflow", mk, contracts={PS + ":init_options": c_init_options})
+    C0 = snap(SymDict(uni, "call"))
+    ctx.decided("cover/init_options-called", "cover", "kw" in seen and all(
+        p.exc is not None and p.exc.cls == "StopHere" for p in paths),
+        witness="init_options not reached on every path: %s" % [str(p.exc) for p in paths])
+    kw = seen.get("kw")
+    if not isinstance(kw, SymDict):
+        ctx.decided("forwards-symbolic-kwargs", "ensures", False, witness="init_options received %r" % (kw,))
+        return
+    new = snap(kw)
+    for k in uni:
+        g = z3.And(new["present"][k] == C0["present"][k],
+                   z3.Implies(C0["present"][k], new["value"][k] == C0["value"][k]))
+        ctx.ob("forwarded[%s]" % k, "ensures", pv_axioms() + [p.cond() for p in paths[:1]], g,
+               replay=lambda m, _k=k: {"handler": "pipeflow_kwargs", "input": {"key": "some_other_option" if _k == KAPPA else _k},
+                                       "expected": "an option passed to pipeflow() reaches init_options unchanged, also when its value is None"})
+    ctx.decided("same-net", "ensures", seen.get("net") is holder.get("net"), witness="init_options called on another object")
